@@ -211,6 +211,51 @@ func c11FixedCases() []fxCase {
 				fxScope(fxNS("", "DAB1"), fxName(fxNS("", "NAA0"), fxOne...)))},
 			check: fxWant("\\DAA2", "\\DAB0", "\\DAB1", "\\DAB1.NAA0")},
 
+		{id: "R1-deferred-blocks-keep-their-extent", what: "Method(MAA1){While(Local0<10){Increment(Local0) Sleep(1)} Return(Local0)} Name(NAA0,4) Name(NAA1,Buffer(NAA0){}) Scope(\\_SB_){Method(MAA2,1){While(Arg0<8){Increment(Arg0) If(Arg0==5){Break}} Return(Arg0)}} Name(NAA2,1): MAA2 is written after MAA1 and NAA1 but visited before them; each deferred block keeps its own extent",
+			tables: [][]byte{fxCat(
+				fxMethod(fxNS("", "MAA1"), 0,
+					fxPkg([]byte{byte(pOpWhile)}, []byte{byte(pOpLLess), byte(pOpLocal0), 0x0a, 10}, []byte{byte(pOpIncrement), byte(pOpLocal0)}, c11OpBytes(pOpSleep), fxOne),
+					[]byte{byte(pOpReturn), byte(pOpLocal0)}),
+				fxName(fxNS("", "NAA0"), 0x0a, 4),
+				fxCat([]byte{byte(pOpName)}, fxNS("", "NAA1"), fxPkg([]byte{byte(pOpBuffer)}, fxNS("", "NAA0"))),
+				fxScope(fxNS("\\", "_SB_"), fxMethod(fxNS("", "MAA2"), 1,
+					fxPkg([]byte{byte(pOpWhile)}, []byte{byte(pOpLLess), byte(pOpArg0), 0x0a, 8}, []byte{byte(pOpIncrement), byte(pOpArg0)},
+						fxPkg([]byte{byte(pOpIf)}, []byte{byte(pOpLEqual), byte(pOpArg0), 0x0a, 5}, []byte{byte(pOpBreak)})),
+					[]byte{byte(pOpReturn), byte(pOpArg0)})),
+				fxName(fxNS("", "NAA2"), fxOne...))},
+			check: func(tree *ObjectTree) string {
+				if s := fxWant("\\MAA1", "\\NAA0", "\\NAA1", "\\_SB_.MAA2", "\\NAA2")(tree); s != "" {
+					return s
+				}
+				var all []*Object
+				budget := 100000
+				c11Preorder(tree, fxAt(tree, "\\MAA1"), &all, &budget)
+				for _, o := range all {
+					if o.opcode == pOpWhile {
+						kids := c11Kids(tree, o)
+						if len(kids) != 2 {
+							return fmt.Sprintf("while-of-MAA1-has-%d-operands", len(kids))
+						}
+						if n := len(c11Kids(tree, kids[1])); n != 2 {
+							return fmt.Sprintf("while-body-of-MAA1-has-%d-statements-want-2", n)
+						}
+					}
+				}
+				all = all[:0]
+				c11Preorder(tree, fxAt(tree, "\\NAA1"), &all, &budget)
+				for _, o := range all {
+					if o.opcode == pOpIntByteList {
+						if b, _ := o.value.([]byte); len(b) != 0 {
+							return fmt.Sprintf("empty-buffer-initialiser-of-NAA1-has-%d-bytes", len(b))
+						}
+					}
+				}
+				if p := c13CheckTreeInvariants(tree); p != "" {
+					return "tree-" + strings.SplitN(p, ":", 2)[0]
+				}
+				return ""
+			}},
+
 		// ---- open findings (expected to fail with the recorded observation) ----
 		{id: "K1a-scope-below-device", what: "Scope(\\_SB_.DAA0.DAA1){Name(NAA0,1)}: a path with a segment below a Device never resolves",
 			tables: [][]byte{fxCat(fxScope(fxNS("\\", "_SB_"), fxDev(fxNS("", "DAA0"), fxDev(fxNS("", "DAA1")))), fxScope(fxNS("\\", "_SB_", "DAA0", "DAA1"), fxName(fxNS("", "NAA0"), fxOne...)))},
